@@ -26,8 +26,8 @@ ASSUMPTIONS = [
     "terminal size and cell size are real pty properties (TIOCSWINSZ); the library's cell-size cache is dropped "
     "through the public win-size-swap toggles after every pixel-size change",
 ]
-N_CALLS = {"quick": 10000, "thorough": 300000}
-N_HIST = {"quick": 150, "thorough": 5000}
+N_CALLS = {"quick": 10000, "thorough": 700000}
+N_HIST = {"quick": 150, "thorough": 15000}
 MIN_EVENTS = {"sizing results judged": {"quick": 100000, "thorough": 3000000}}
 SHARDS = 16
 
